@@ -10,6 +10,7 @@ mod c08;
 mod c09;
 mod c10;
 mod c11;
+mod c12;
 mod c13;
 mod c14;
 mod c16;
@@ -42,6 +43,7 @@ fn dispatch(id: &str) {
         "C10" => c10::run(),
         "C11" => c11::run(),
         "C16" => c16::run(),
+        "C12" => c12::run(),
         "C13" => c13::run(),
         "C14" => c14::run(),
         "C15" => c01::run(c01::Mode::C15),
